@@ -253,7 +253,15 @@ func (e *FnEnc) havocAll() {
 	e.growAlloc()
 	for i, a := range imm {
 		nw := e.heapArr(a.name, a.sort)
-		e.assume(fmt.Sprintf("(forall ((r Int)) (! (=> (select %s r) (= (select %s r) (select %s r))) :pattern ((select %s r))))", allocBefore, nw, olds[i], nw))
+		// objects that existed before the call, including structs embedded in them / elements of their arrays
+		existed := "(select " + allocBefore + " r)"
+		if e.ufs["emb_axioms"] {
+			existed = "(or " + existed + " (select " + allocBefore + " (emb_par r)))"
+		}
+		if e.ufs["eaddr_axioms"] {
+			existed = "(or " + existed + " (select " + allocBefore + " (eaddr_base r)))"
+		}
+		e.assume(fmt.Sprintf("(forall ((r Int)) (! (=> %s (= (select %s r) (select %s r))) :pattern ((select %s r))))", existed, nw, olds[i], nw))
 	}
 	if li := e.curLoopTrack(); li != nil {
 		for _, l := range li {
